@@ -71,4 +71,23 @@ inline std::string xalanFrames(void* const* bt, int n, int want = 4) {
     return r.empty() ? "no-xalan-frame" : r;
 }
 
+// Frames that only say "a container grew": skipped when a signature has to name the responsible function.
+inline bool genericFrame(const std::string& f) {
+    static const char* const pre[] = { "XalanVector::", "XalanList::", "XalanMap::", "XalanDeque::", "XalanSet::", "XalanConstruct", "XalanCopyConstruct", "XalanAllocate", "XalanDestroy",
+        "ArenaAllocator::", "ArenaBlock", "ReusableArena", "XalanMemMgrAutoPtr", "XalanAllocationGuard", "XalanAutoPtr", "std::", "XalanDOMString::", "operator new", "MemoryManagedConstructionTraits",
+        "ConstructWithMemoryManager", "ConstructValueWithMemoryManager", "XalanObjectCache", "DefaultCacheCreateFunctor", "XalanMemMgrs::", "allocate", "construct" };
+    for (const char* p : pre) if (f.compare(0, strlen(p), p) == 0) return true;
+    return f.find("Allocator::create") != std::string::npos || f.find("Allocator::allocateBlock") != std::string::npos;
+}
+// stable identity of "who asked for this memory": the first `want` non-generic frames inside libxalan-c
+inline std::string responsibleFrames(void* const* bt, int n, int want = 2) {
+    std::string r; int got = 0; std::string last;
+    for (int i = 0; i < n && got < want; ++i) {
+        bool in = false; std::string s = symOf(bt[i], &in);
+        if (!in || s == "?" || s == last || genericFrame(s)) continue;
+        last = s; if (got) r += "<"; r += s; ++got;
+    }
+    return r.empty() ? xalanFrames(bt, n, 2) : r;
+}
+
 } // namespace sim
